@@ -242,8 +242,15 @@ def gen(rng, depth=2):
         q = Q(rng, depth)
         text = q.build(top=False)
         for _ in range(rng.choice([1, 1, 2])):
-            q2 = Q(rng, max(0, depth - 1))
-            t2 = q2.build(top=False)
+            if rng.random() < 0.2:
+                import copy as _copy
+                q2, t2 = _copy.deepcopy(q), text          # a branch repeated word for word is still a branch of its own
+                if " UNION " in t2 or " EXCEPT " in t2 or " INTERSECT " in t2 or " MINUS " in t2:
+                    q2 = Q(rng, max(0, depth - 1))
+                    t2 = q2.build(top=False)
+            else:
+                q2 = Q(rng, max(0, depth - 1))
+                t2 = q2.build(top=False)
             text += " " + rng.choice(["UNION", "UNION ALL", "EXCEPT", "INTERSECT", "MINUS"]) + " " + ("(" + t2 + ")" if rng.random() < 0.3 and " ORDER BY " not in t2 else t2)
             q.tables_all += q2.tables_all
             q.tables_from += q2.tables_from
